@@ -134,3 +134,14 @@ func scaleLadder(n int, braced bool) string {
 	fmt.Fprintf(&b, "  %s { %s \"no rung\"; %s; }\n  %s \"after ladder\";\n}\n%s \"end\";\n", bn.KwElse, bn.KwPrint, bn.KwBreak, bn.KwPrint, bn.KwPrint)
 	return b.String()
 }
+
+// scaleNestedObjects: a chain of n objects nested inside one another (a linked list built in a loop), its depth
+// walked, a middle link read and written, and the whole chain printed.
+func scaleNestedObjects(n int) string {
+	P, V := bn.KwPrint, bn.KwVar
+	var b strings.Builder
+	fmt.Fprintf(&b, "%s chain = {n: 0};\n%s (%s i = 1; i < %d; i = i + 1) {\n  chain = {c: chain, n: i};\n}\n", V, bn.KwFor, V, n)
+	fmt.Fprintf(&b, "%s depth = 0;\n%s at = chain;\n%s (at.n > 0) { at = at.c; depth = depth + 1; }\n%s depth;\n", V, V, bn.KwWhile, P)
+	fmt.Fprintf(&b, "at.mark = \"bottom\";\n%s chain.c.n;\n%s chain;\n%s \"done\";\n", P, P, P)
+	return b.String()
+}
